@@ -715,10 +715,10 @@ func main() {
 		fmt.Println(cov["histories_done"], time.Since(t0), rep.Count())
 		for _, k := range []string{"version_boundaries", "lookalike_names", "prefix_related_names"} {
 			if m, ok := cov[k].(map[string]any); ok {
-				fmt.Println(k, m["histories_done"], "of", m["histories_total"], "exhaustive", m["exhaustive"], "gets", m["get_comparisons"])
+				fmt.Println(k, m["histories_done"], "of", m["histories_total"], "exhaustive", m["exhaustive"], "gets", m["get_comparisons"], "mixed", m["mixed_mode"])
 			}
 		}
-		fmt.Println("main exhaustive", cov["exhaustive"], "of", cov["histories_total"])
+		fmt.Println("main exhaustive", cov["exhaustive"], "of", cov["histories_total"], "gets", cov["get_comparisons"], "mixed", cov["mixed_mode"])
 		removeTmp()
 		return
 	}
@@ -790,7 +790,7 @@ func main() {
 			if th {
 				return 17 * time.Minute // (14 min + the round-7 configurations style k=1, styleS k=2, typed k=1, typedS k=2)
 			}
-			return 66 * time.Second // (70 s less the time the mixed-mode store histories take)
+			return 63 * time.Second // (70 s less the time the mixed-mode store histories, round 10: with Removes inside transactions, take)
 		},
 		Rule: rule, Assumptions: assumptions,
 		Extra: func(rep *report.Reporter, cov report.Coverage) {
